@@ -4,7 +4,7 @@
      updateReferences, setStatus, referenceExists, sendReportStatus
    over the abstract store of Spec/AStore.v (references + object set).
    Executable definitions only. *)
-From Coq Require Import List NArith Bool String.
+From Coq Require Import List NArith Bool String Ascii.
 From GoGit Require Import Base.Out Spec.AStore.
 Import ListNotations.
 Local Open Scope N_scope.
@@ -106,21 +106,27 @@ Definition g_receive (s : store) (r : request) : outcome :=
   end.
 
 (* ---------------------------------------------------------------- rendering *)
-Definition o_optN (o : option N) : out :=
-  match o with Some k => ON k | None => OSym "zero" end.
-Definition o_cmd (c : cmd) : out := OList [ON (c_name c); o_optN (c_old c); o_optN (c_new c)].
-Definition o_status (p : N * bool) : out :=
-  OList [ON (fst p); OSym (if snd p then "ok" else "ng")].
+(* compact observables (one symbol each):
+     report   none | R<k|g>(_<name><k|g>)*      unpack line ok / not ok, then the statuses
+     post     none | ( c<name>_<old|z>_<new|z> ... ) *)
+Definition s_optN (o : option N) : string :=
+  match o with Some k => sN k | None => "z"%string end.
+Definition o_cmd (c : cmd) : out :=
+  OSym (String "c"%char (String.append (sN (c_name c))
+         (String "_"%char (String.append (s_optN (c_old c)) (String "_"%char (s_optN (c_new c))))))).
+Definition s_kg (b : bool) : string := (if b then "k" else "g")%string.
 
 Definition o_outcome (o : outcome) : out :=
   OList [ OSym (if o_ok o then "ok" else "err");
           match o_report o with
           | None => OSym "none"
-          | Some (u, l) => OList (OSym (if u then "unpack_ok" else "unpack_err") :: map o_status l)
+          | Some (u, l) =>
+            OSym (String "R"%char (String.append (s_kg u)
+                   (s_join (map (fun p => String.append (sN (fst p)) (s_kg (snd p))) l))))
           end;
           match o_post o with
           | None => OSym "none"
-          | Some l => OList (OSym "post" :: map o_cmd l)
+          | Some l => OList (map o_cmd l)
           end;
           o_res (RRefs (s_refs (o_store o)));
           o_res (RIds (fm_keys (s_objs (o_store o)))) ].
